@@ -46,16 +46,53 @@ impl Src for KaniSrc {
     fn cover(&mut self, c: bool) { kani::cover!(c) }
 }
 
+/// set (native builds only) when a statement that must panic returned instead: `no_return()` /
+/// `returned_instead_of_panicking()` were reached. Read by the replay driver's profile probe.
+pub static MISSED_PANIC: core::sync::atomic::AtomicBool = core::sync::atomic::AtomicBool::new(false);
+pub fn missed_panic() { MISSED_PANIC.store(true, core::sync::atomic::Ordering::SeqCst); }
+
 /// Replays the `concrete_vals` printed by `cargo kani --concrete-playback=print` (one entry per draw, little endian).
 pub struct ReplaySrc {
     pub vals: Vec<Vec<u8>>,
     pub pos: usize,
     pub assumption_violated: bool,
     pub exhausted: bool,
+    /// profile probe: when set, draws beyond the recorded ones are generated (edge-biased, xorshift) and recorded in `vals`
+    pub rng: Option<u64>,
 }
 impl ReplaySrc {
-    pub fn new(vals: Vec<Vec<u8>>) -> Self { Self { vals, pos: 0, assumption_violated: false, exhausted: false } }
+    pub fn new(vals: Vec<Vec<u8>>) -> Self { Self { vals, pos: 0, assumption_violated: false, exhausted: false, rng: None } }
+    pub fn generator(seed: u64) -> Self { Self { vals: Vec::new(), pos: 0, assumption_violated: false, exhausted: false, rng: Some(seed | 1) } }
+    fn generate(&mut self, n: usize) -> u128 {
+        let mut x = self.rng.unwrap();
+        let mut step = || { x ^= x << 13; x ^= x >> 7; x ^= x << 17; x };
+        let a = step(); let b = step(); let c = step();
+        self.rng = Some(x);
+        let bits = 8 * n as u32;
+        let mask: u128 = if bits >= 128 { u128::MAX } else { (1u128 << bits) - 1 };
+        let r = ((b as u128) << 64 | c as u128) & mask;
+        let k = ((a >> 8) as u32) % bits.max(1);
+        let v = match a % 16 {
+            0 => 0,
+            1 => 1,
+            2 => mask,
+            3 => mask >> 1,
+            4 => (mask >> 1) + 1,
+            5 => (1u128 << k) & mask,
+            6 => ((1u128 << k) - 1) & mask,
+            7 => mask - (r & 0xff),
+            8 | 9 | 10 | 11 => r & 0xff & mask,          // small values (lengths, shift amounts)
+            12 => (r & 0xff) + bits as u128 - 2,          // around the bit size
+            _ => r,
+        } & mask;
+        let mut rec = Vec::new();
+        let mut i = 0;
+        while i < n { rec.push((v >> (8 * i)) as u8); i += 1; }
+        self.vals.push(rec);
+        v
+    }
     fn next(&mut self, n: usize) -> u128 {
+        if self.pos >= self.vals.len() && self.rng.is_some() { self.pos += 1; return self.generate(n); }
         if self.pos >= self.vals.len() { self.exhausted = true; return 0; }
         let v = &self.vals[self.pos];
         self.pos += 1;
